@@ -1,8 +1,9 @@
 (* C07/RunDefs — entry points of the extracted models (Extract_C07.v). Definitions only.
    Grid side: Lib.KernelDefs + CCWDefs.  binary64 side: the GENERATED units (Gen/K_*.v, Lib.GenPreludeF) applied to bit patterns. *)
 From Coq Require Import ZArith List Bool Floats.SpecFloat.
-From GeosV Require Import Lib.KernelDefs C07.CCWDefs.
-From GeosV Require Lib.GenPreludeF.
+From GeosV.Lib Require Import KernelDefs.
+From GeosV.C07 Require Import CCWDefs.
+From GeosV.Lib Require GenPreludeF.
 From GeosV.Gen Require K_filterF K_orientationIndexF K_signOfDet2x2 K_intersectionF K_ddAdd K_ddMul K_ddSub K_ddDiv.
 Import ListNotations.
 Local Open Scope Z_scope.
